@@ -43,6 +43,9 @@ type gen struct {
 func newGen(r *rng.R, family string) *gen {
 	g := &gen{r: r, family: family, subs: map[string]string{}, registered: map[string]bool{}, everNext: map[string]bool{}, gotShutdown: map[string]bool{}, execFail: map[string]bool{}}
 	names := []string{"a", "b", "c"}
+	if r.Chance(1, 5) { // any regular file in the directory is an extension, whatever its name looks like
+		names = [][]string{{".a", "b", "c"}, {"a", "b~", "c"}, {"-a", ".b", "c.d"}}[r.Intn(3)]
+	}
 	ne := r.Intn(4)
 	if family == "noext" || family == "slowbody" {
 		ne = 0
